@@ -37,7 +37,7 @@ def h_assign(T, M):
 
 
 def declare(rep):
-    rep.rule("C12.a", "no new/delete/malloc/free and no pointer-typed owning member in the library headers", floor=25)
+    rep.rule("C12.a", "no new/delete/malloc/free and no pointer-typed owning member in the library headers (a hit is exit 2: outside what the ownership rules cover)", floor=25)
     rep.rule("C12.b", "array copy operations allocate source.m_size elements, copy exactly that many bytes from the source buffer, and leave (m_size, m_ptr) = (source.m_size, fresh buffer)", floor=4)
     rep.rule("C12.c", "copy assignment: target is mutated only under this != &other, or only after the last read of the source", floor=2)
     rep.rule("C12.d", "copy assignment returns *this", floor=2)
@@ -89,7 +89,9 @@ def token_scan(rep):
                                         hit = (src.count("\n", 0, m.start()) + 1, "raw pointer member `%s`" % decl[-60:])
                                     cur = ""
                 if hit:
-                    rep.fail("C12.a", rel, "%s:%d" % (rel, hit[0]), "ownership outside std::unique_ptr: %s" % hit[1])
+                    # not a defect in itself (unique_ptr<T[]>(new T[n]) behaves like make_unique): the ownership rules below only
+                    # vouch for storage held by std::unique_ptr, so this asks for re-confirmation (exit 2) instead of accusing
+                    rep.undecided("C12 %s:%d: ownership outside std::unique_ptr (%s); the copy/assign/convert rules of this check only cover unique_ptr-held storage - re-confirm by reading" % (rel, hit[0], hit[1]))
                 else:
                     rep.ok("C12.a", rel)
 
